@@ -15,6 +15,10 @@ import JanetModel.Lib.StrMiscCProofs
 import JanetModel.Lib.ArrCProofs
 import JanetModel.Lib.BufCProofs
 import JanetModel.Lib.BootProofs
+import JanetModel.Lib.Boot2Proofs
+import JanetModel.Lib.TupleJoinCProofs
+import JanetModel.Lib.ConcatCProofs
+import JanetModel.Lib.BufPushCProofs
 namespace JanetModel.Props.C17
 open JanetModel.Lib JanetModel.Gen.Lib
 
@@ -408,5 +412,45 @@ theorem boot_extreme {α : Type} (order : α → α → Bool) (ds : List α) : B
 
 example : ArrC.remove [1, 2, 3] 1 (some 2147483647) = .ok [1] ∧ BufC.bitSet [0] 3 = .ok [8] := by decide
 example : Boot.take (-2) [1, 2, 3] = .ok [2, 3] ∧ Boot.map2 (fun (a b : Nat) => a * b) [1, 2, 3] [4, 5] = .ok [4, 10] := by decide
+
+/-! ### ★★ second group of mirrors: tuple/join, array/concat, the buffer push family, more boot.janet -/
+
+/-- `tuple/join`: the int32 length accumulator is checked before every addition; raises iff the result is too long -/
+theorem mirror_tuple_join {α : Type} [Inhabited α] (parts : List (List α)) (hp : ∀ p ∈ parts, Len32 p) :
+    ArrC.tupleJoin parts = if (parts.flatten.length : Int) ≤ int32Max then .ok parts.flatten else .panic :=
+  ArrC.tupleJoin_eq_spec parts hp
+
+/-- `array/concat`, also of an array onto itself (`len` captured before the pushes; `vals[j]` read from the growing array) -/
+theorem mirror_array_concat {α : Type} (a : List α) (parts : List (ConcatArg α))
+    (h : ((arrayConcat a parts).length : Int) ≤ int32Max) : ArrC.concat a parts = .ok (arrayConcat a parts) :=
+  ArrC.concat_eq_spec a parts h
+
+/-- `buffer_push_impl` (`buffer/push`, and with byte-sequence arguments `buffer/push-string`): contents after the call —
+    also after a call that raised part-way — and the error condition are those of the reference definition; stale cells
+    beyond the count are untouched (invariant `BufPush.Inv`) -/
+theorem mirror_buffer_push (D : List Nat) (xs : List PushArg) (b : BufPush.Buf) (hI : BufPush.Inv D b)
+    (h32 : ((bufferPushSt (BufPush.contents b) xs).2.length : Int) ≤ int32Max) :
+    BufPush.contents (BufPush.push b xs).1 = (bufferPushSt (BufPush.contents b) xs).2 ∧
+    (BufPush.push b xs).2 = (if (bufferPushSt (BufPush.contents b) xs).1 then .ok () else .panic) ∧
+    BufPush.Inv D (BufPush.push b xs).1 := BufPush.pushImpl_spec D xs b hI h32
+
+/-- `buffer/push-at`: set count to `index`, push, restore the count if it ended smaller — the old tail bytes reappear -/
+theorem mirror_buffer_push_at (bs : Bytes) (index : Int) (xs : List PushArg) (r : Bytes)
+    (hspec : bufferPushAt bs index xs = some r) (h32 : (r.length : Int) ≤ int32Max) :
+    BufPush.contents (BufPush.pushAt { data := bs.toArray, count := bs.length } index xs).1 = r ∧
+    (BufPush.pushAt { data := bs.toArray, count := bs.length } index xs).2 = .ok () :=
+  BufPush.pushAt_eq_spec bs index xs r hspec h32
+
+/-- boot.janet `index-of`, `find`, `reverse`, `reduce2`, `zipcoll` -/
+theorem boot_more {α β : Type} [BEq α] [Inhabited α] (x : α) (pred : α → Bool) (f : α → α → α) (ind : List α) (vs : List β) :
+    Boot.indexOf x ind = .ok (ind.findIdx? (fun y => y == x)) ∧ Boot.find pred ind = .ok (ind.find? pred) ∧
+    Boot.reverse ind = .ok ind.reverse ∧
+    Boot.reduce2 f ind = .ok (match ind with | [] => none | y :: ys => some (ys.foldl f y)) ∧
+    Boot.zipcoll ind vs = .ok (zipcoll ind vs) :=
+  ⟨Boot.indexOf_eq_spec x ind, Boot.find_eq_spec pred ind, Boot.reverse_eq_spec ind, Boot.reduce2_eq_spec f ind,
+   Boot.zipcoll_eq_spec ind vs⟩
+
+example : BufPush.contents (BufPush.pushAt { data := #[1, 2, 3, 4, 5], count := 5 } 1 [.byte 9]).1 = [1, 9, 3, 4, 5] := by decide
+example : ArrC.concat [1] [.self, .self] = .ok [1, 1, 1, 1] ∧ ArrC.tupleJoin [[1], [2, 3]] = .ok [1, 2, 3] := by decide
 
 end JanetModel.Props.C17
